@@ -198,6 +198,8 @@ def run(ctx):
               "FIELDS == %s" % sorted(struct_fields), "FIELDS const %s differs from the struct's state fields %s" % (fields_const, sorted(struct_fields)))
     ctx.check(arms == set(struct_fields), "R20-field-tables", "deserialize:visit_str", visit_str[0] if visit_str else de,
               "visit_str accepts exactly %s" % sorted(arms), "visit_str arms %s differ from the struct's state fields %s" % (sorted(arms), sorted(struct_fields)))
+    # R20-field-flow: the value read under map key X flows into the aggregate field named X
+    field_flow(ctx, reach, struct_fields)
     # duplicate / missing keys reach Err: every field name appears in a duplicate_field and a missing_field call on an Err path
     vm = [f for f in prog.fns.values() if f.name == "visit_map" and f.key in reach]
     dup, miss = set(), set()
@@ -212,3 +214,92 @@ def run(ctx):
     ctx.check(dup == set(struct_fields) and miss == set(struct_fields), "R20-field-tables", "deserialize:dup-missing", vm[0] if vm else de,
               "duplicate and missing keys are reported for each of %s" % sorted(struct_fields),
               "duplicate_field covers %s, missing_field covers %s; expected both to cover %s" % (sorted(dup), sorted(miss), sorted(struct_fields)))
+
+
+def field_flow(ctx, reach, struct_fields):
+    from ..paths import PathEnumerator
+    from ..terms import subterms
+    prog = ctx.prog
+    vs = [f for f in prog.fns.values() if f.name == "visit_str" and f.key in reach]
+    vm = [f for f in prog.fns.values() if f.name == "visit_map" and f.key in reach]
+    if not vs or not vm:
+        ctx.fail("anchor-missing", "R20-field-flow", None, "visit_str / visit_map of the deserialiser not found")
+        return
+    # string -> Field variant (from the paths of visit_str)
+    s2v = {}
+    pe = PathEnumerator(vs[0], prog, ctx.summ)
+    for p in pe.paths():
+        if p.exit_kind != "return" or p.ret != "Ok" or not p.ret_payload or p.ret_payload[0] != "term":
+            continue
+        t = p.ret_payload[1]
+        if t[0] != "adt":
+            continue
+        strs = [c for c, tr in pe.path_facts(p) if tr and c[0] == "op" and c[1] == "Eq" and any(x[0] == "const" and isinstance(x[1], str) for x in c[2])]
+        if strs:
+            name = [x[1] for x in strs[-1][2] if x[0] == "const" and isinstance(x[1], str)][0]
+            s2v[name] = t[2]
+    field_adt = None
+    for k, a in prog.adts.items():
+        if k.endswith("deserialize::Field"):
+            field_adt = a
+    if field_adt is None or set(s2v) != set(struct_fields):
+        ctx.fail("R20-field-flow", "visit_str:mapping", vs[0], "cannot derive the key -> Field variant table from visit_str (got %s)" % s2v)
+        return
+    vidx = {v["name"]: i for i, v in enumerate(field_adt["variants"])}
+    v2s = {vidx[v]: s for s, v in s2v.items()}
+    f = vm[0]
+    tb = TermBuilder(f, prog)
+    # next_value sites and the variant under which each is reached
+    site_variant = {}
+    for bi, t in f.calls():
+        if t.callee_name() == "next_value":
+            facts = atomic_facts(f, prog, bi, tb)
+            vi = [c[2][1][1] for c, tr in facts if tr and c[0] == "op" and c[1] == "Eq" and c[2][0][0] == "call" and c[2][0][1] == "discriminant" and c[2][1][0] == "const"
+                  and "Field" in f.local_ty(_discr_local(f, bi, c)) ] if False else []
+            # simpler: find the dominating switch on a local of type Field
+            for d in sorted(f.dominators().get(bi, ())):
+                tt = f.blocks[d].term
+                if tt.k == "switch" and tt.discr.place is not None and tt.discr.place.is_local():
+                    dl = tt.discr.place.local
+                    src = None
+                    for st in f.blocks[d].stmts:
+                        if st.k == "assign" and st.place.is_local() and st.place.local == dl and st.rv.k == "discr":
+                            src = st.rv.place.local
+                    if src is not None and f.local_ty(src).endswith("Field"):
+                        from ..guards import reach_without
+                        for v, b in tt.j["arms"]:
+                            others = [b2 for v2, b2 in tt.j["arms"] if b2 != b] + [tt.j["otherwise"]]
+                            if reach_without(f, b, bi, d) and not any(reach_without(f, o, bi, d) for o in others):
+                                site_variant[bi] = int(v)
+    ctx.floor("R20-field-flow", len(site_variant), 3, "next_value sites under a Field arm")
+    # aggregate operands
+    agg = None
+    for bi, blk in enumerate(f.blocks):
+        for si, st in enumerate(blk.stmts):
+            if st.k == "assign" and st.rv.k == "aggregate" and st.rv.j.get("adt") == HLL:
+                agg = tb.rvalue(st.rv, bi, si)
+    if agg is None:
+        return  # construction goes through the constructor: arguments are checked at the call site instead
+    for name, term in agg[3]:
+        if name not in struct_fields:
+            continue
+        sites = set()
+        seen = set()
+        work = [term]
+        while work:
+            t = work.pop()
+            for s_ in subterms(t):
+                if s_[0] == "loopvar" and (s_[1], s_[2]) not in seen:
+                    seen.add((s_[1], s_[2]))
+                    work.append(tb.loop_update(s_[1], s_[2]))
+                if s_[0] == "call" and s_[1].endswith("next_value"):
+                    for a in s_[2]:
+                        if a[0] == "site":
+                            sites.add(a[2])
+        got = sorted({v2s.get(site_variant.get(b)) for b in sites})
+        ctx.check(got == [name], "R20-field-flow", "visit_map:%s" % name, f, "field `%s` receives the value read under key \"%s\"" % (name, name),
+                  "field `%s` of the deserialised sketch receives the value read under key(s) %s" % (name, got))
+
+
+def _discr_local(f, bi, c):
+    return 0
